@@ -1,0 +1,24 @@
+//go:build verif
+
+// Machine-checked contracts for package l4wireguard (comment-only; read by /verif/gvc).
+
+package l4wireguard
+
+// The matcher never panics and allocates a fixed 149-byte buffer plus the parsed message (C04); it
+// leaves the connection buffer and the network alone (C06).
+//@ func (m *MatchWireGuard) Match(cx *layer4.Connection) (matched bool, err error)
+//@ requires wfm(cx)
+//@ safety C04
+//@ implements[C06] (m github.com/mholt/caddy-l4/layer4.ConnMatcher) Match
+//@ ensures[C06] err == nil || err == layer4.ErrConsumedAllPrefetchedBytes
+//@ ensures[C06] err != nil ==> !matched
+
+//@ func (msg *MessageInitiation) FromBytes(src []byte) (err error)
+//@ requires msg != nil
+//@ safety C04
+//@ assigns[C06] all(msg)
+
+//@ func (msg *MessageTransport) FromBytes(src []byte) (err error)
+//@ requires msg != nil && len(msg.Content) == 0 && cap(msg.Content) == 0 && len(src) <= 65535
+//@ safety C04
+//@ assigns[C06] all(msg)
